@@ -43,6 +43,8 @@ type behaviour struct {
 	cancels bool
 }
 
+const defaultTimeout = 365 * 24 * time.Hour
+
 type taskSpec struct {
 	send    time.Duration
 	timeout time.Duration
@@ -186,7 +188,7 @@ func runAnts(toks []string) string {
 				b = sp.behs[a]
 			}
 			d := b.dur
-			if sp.timeout > d {
+			if sp.timeout > d && sp.timeout != defaultTimeout { // no WithTimeout: the attempt lasts as long as its handler
 				d = sp.timeout
 			}
 			sumDur += d + b.dur
@@ -252,7 +254,19 @@ func runAnts(toks []string) string {
 		go func(pool ants.Pool) {
 			defer wg.Done()
 			time.Sleep(sp.send - time.Since(base))
-			opts := []ants.TaskOption{ants.WithTimeout(sp.timeout), ants.WithRetry(sp.retry), ants.WithDiscardOnBusy(sp.discard)}
+			// options equal to createTaskOptions' defaults are left out for some tasks, so that the defaults
+			// themselves (timeout 365 days, retry 1, discardOnBusy true) are exercised: a task scripted with the
+			// default timeout is always sent without WithTimeout; odd tasks also omit a default retry / discard
+			var opts []ants.TaskOption
+			if sp.timeout != defaultTimeout {
+				opts = append(opts, ants.WithTimeout(sp.timeout))
+			}
+			if !(sp.retry == 1 && k%2 == 1) {
+				opts = append(opts, ants.WithRetry(sp.retry))
+			}
+			if !(sp.discard && k%2 == 1) {
+				opts = append(opts, ants.WithDiscardOnBusy(sp.discard))
+			}
 			if sp.onerr {
 				opts = append(opts, ants.WithError(func(err error) {
 					logf(func() string { return fmt.Sprintf("OE,%d,%d,%s", k, now(), showErr(err)) })
@@ -262,7 +276,10 @@ func runAnts(toks []string) string {
 			t := pool.Send(handler, opts...)
 			logf(func() string { tasks[k] = t; return fmt.Sprintf("SR,%d,%d", k, now()) })
 			v, e := t.Get2()
-			logf(func() string { returned[k] = true; return fmt.Sprintf("G,%d,%d,%s,%s", k, now(), showVal(v), showErr(e)) })
+			logf(func() string {
+				returned[k] = true
+				return fmt.Sprintf("G,%d,%d,%s,%s", k, now(), showVal(v), showErr(e))
+			})
 		}(pool)
 	}
 	if pcAt >= 0 {
